@@ -11,7 +11,7 @@ import fcntl
 import fractions
 import hashlib
 import json
-import os
+import os, threading
 import random
 import re
 import shutil
@@ -221,6 +221,26 @@ def _coqdep(files):
     return deps
 
 
+_SERIAL = threading.Lock()
+
+
+def _coqc_retrying(cmd, cwd, timeout):
+    """Run coqc.  A coqc that was killed by a signal or died without a Coq error message (the kernel's OOM killer,
+    "Fatal error: out of memory") says nothing about the development: it is re-run, one at a time, up to two more
+    times.  A genuine Coq error (message starting with "Error:") is returned at once."""
+    def run():
+        return subprocess.run(cmd, cwd=cwd, stdout=subprocess.PIPE, stderr=subprocess.STDOUT, text=True, timeout=timeout)
+    r = run()
+    for attempt in range(2):
+        if r.returncode == 0 or (r.returncode > 0 and 'Error:' in r.stdout and 'ut of memory' not in r.stdout):
+            return r
+        with _SERIAL:
+            time.sleep(5 * (attempt + 1))
+            r = run()
+    return r
+
+
+
 def coq_make(targets, jobs=8, timeout=1500):
     """(Re)build the given .vo targets (paths relative to /verif/coq) and what they depend on.
 
@@ -274,10 +294,9 @@ def coq_make(targets, jobs=8, timeout=1500):
                 v = deps[vo][0]
                 left = max(30, int(t_end - time.time()))
                 try:
-                    r = subprocess.run(['coqc', '-R', '.', 'QV', '-w',
+                    r = _coqc_retrying(['coqc', '-R', '.', 'QV', '-w',
                                         '-notation-overridden,-deprecated-hint-without-locality,'
-                                        '-deprecated-instance-without-locality,-ambiguous-paths', v], cwd=COQ,
-                                       stdout=subprocess.PIPE, stderr=subprocess.STDOUT, text=True, timeout=left)
+                                        '-deprecated-instance-without-locality,-ambiguous-paths', v], COQ, left)
                     return vo, r.returncode, 'COQC %s\n%s' % (v, r.stdout)
                 except subprocess.TimeoutExpired:
                     return vo, 124, 'COQC %s\nFile "%s", line 1, characters 0-0:\nError: coqc timed out' % (v, v)
@@ -413,8 +432,7 @@ def run_coq_cases(workdir, imports, checks, case_terms, case_type='case', shard=
     def one(item):
         path, start = item
         try:
-            r = subprocess.run(['coqc', '-R', COQ, 'QV', '-w', '-all', path], cwd=workdir, stdout=subprocess.PIPE,
-                               stderr=subprocess.STDOUT, text=True, timeout=COQC_TIMEOUT)
+            r = _coqc_retrying(['coqc', '-R', COQ, 'QV', '-w', '-all', path], workdir, COQC_TIMEOUT)
         except subprocess.TimeoutExpired:
             raise RuntimeError('coqc timed out on %s' % path)
         if r.returncode != 0:
